@@ -94,7 +94,7 @@ func VerifIPFIXCacheTraces() {
 	peer := func() { var r TemplateRecord; rpc.Get(RPCRequest{ID: k2, IP: a}, &r) }
 	decT := func() { NewDecoder(a, verifTplMsg(k1)).Decode(m) }
 	decD := func() { NewDecoder(a, verifDataMsg(k3)).Decode(m) }
-	switch verifSplit(6) {
+	switch verifSplit(10) {
 	case 0:
 		verifConcurrent(ins1, ins2, get3)
 	case 1:
@@ -107,6 +107,15 @@ func VerifIPFIXCacheTraces() {
 		verifConcurrent(decT, decD, dump)
 	case 5:
 		verifConcurrent(decT, decT, decD)
+	// four threads (thorough tier)
+	case 6:
+		verifConcurrent(ins1, ins2, dump, get3)
+	case 7:
+		verifConcurrent(decT, decD, dump, peer)
+	case 8:
+		verifConcurrent(dump, dump, ins1, get1)
+	case 9:
+		verifConcurrent(ins1, ins2, get1, get3)
 	}
 	verifReach("end")
 }
